@@ -40,6 +40,9 @@ def run(chk, tier):
         display_mockerror(chk, F, 'R19.1', cfg)
         display_call(chk, F, 'R19.2', cfg)
         pattern_indices(chk, F, 'R19.5', cfg)
+        from props import ctor
+        ctor.reporter_storage(chk, F, 'R19.6', cfg)
+        ctor.matcher_storage(chk, F, 'R19.4.store', cfg)
     from xpand import rules as X
     X.check_traits(chk, tier, chk.seed, {'C19'})
     X.check_patterns(chk, tier, chk.seed, {'C19'})
